@@ -203,17 +203,32 @@ def install_hooks():
     _rec('rs-req', getattr(self, '_c09_inst', 0), _callid(msg))
     return o_req(self, sink_stack, msg, stream, headers)
 
+  def state_of(self):
+    try:
+      return _state_name(self.state)
+    except Exception as e:
+      return 'exc:' + type(e).__name__
+
   def fault(self, val):
     _rec('rs-fault', getattr(self, '_c09_inst', 0), type(val).__name__)
-    return o_fault(self, val)
+    try:
+      return o_fault(self, val)
+    finally:
+      _rec('rs-state', getattr(self, '_c09_inst', 0), state_of(self))
 
   def open_(self):
     _rec('rs-open', getattr(self, '_c09_inst', 0))
-    return o_open(self)
+    try:
+      return o_open(self)
+    finally:
+      _rec('rs-state', getattr(self, '_c09_inst', 0), state_of(self))
 
   def close(self):
     _rec('rs-close', getattr(self, '_c09_inst', 0))
-    return o_close(self)
+    try:
+      return o_close(self)
+    finally:
+      _rec('rs-state', getattr(self, '_c09_inst', 0), state_of(self))
 
   RS.__init__, RS.AsyncProcessRequest, RS._OnSinkFaulted, RS.Open, RS.Close = init, req, fault, open_, close
   _HOOKS['ok'] = True
